@@ -12,10 +12,26 @@ NOT_APPLICABLE = {
 }
 
 TECH = {
-    "C02": "HIR table extraction + order-type evaluation of extracted comparison predicates; who-may-call rule on name resolution",
-    "C03": "HIR table extraction, complement check against extracted comparison table, MIR field-write sets, mini-interpretation of And/Or arms",
-    "C13": "order-type evaluation of extracted date predicates over all weak orderings; interval-construction table extraction",
-    "C14": "HIR ladder/table extraction compared with documented unit tables",
+    "C01": "guard-chain (ancestor condition) whitelists on the report/descent sites of visit_dir, evaluation of the extracted depth-window predicates on an integer grid, call-argument agreement of the recursive/BFS/DFS calls, exit-class whitelist of the entry loop, MIR who-may-call rule for link-following stat calls, default-option table extraction",
+    "C02": "HIR table extraction + order-type evaluation of the extracted comparison predicates over all weak orderings; who-may-call rule on name resolution of quoted literals; statement-order rule (literal before text-keyed memo); clause/phase-flag order in Parser::parse",
+    "C03": "HIR table extraction, complement check against the extracted comparison table, MIR field-write sets, presence-only guard check on the NOT descent, mini-interpretation of And/Or arms",
+    "C04": "evaluation of the extracted mode predicates on all 2^16 mode words (quick: type x permission grid) against the POSIX oracle, table extraction (extension classes, mode string), MIR dominance of the memo reset, field-reset completeness of the per-entry memo",
+    "C05": "order-type evaluation of the extracted comparator over operand orderings and directions, key-typing table extraction, guard-chain check of the key/direction pushes, dominance/pairing rules of the ordered buffer",
+    "C06": "guard-chain analysis of every LIMIT exit (must contain !is_buffered()), pairing/counter rules of TopN (MIR field writes), definition check of the buffering predicates",
+    "C07": "type-directed rule (every division on the AVG path has float operands), aggregate -> primitive/divisor/sqrt table extraction, single-writer MIR rule for the aggregation buffer, must-precede rule (aggregate argument materialised before the key is read)",
+    "C08": "path-count rule on the partition closure (each row inserted exactly once), key-construction agreement between writer and reader, clause/phase-flag order in Parser::parse, shared aggregate rules",
+    "C09": "format-template decoding (format_args! byte strings) per formatter, escaper-on-every-path rule, who-may-write rule for separators, totality rule for the in-memory sink (no failing path in Write::write), statement-order rule (literal before memo), colour gate extraction",
+    "C10": "panic-site enumeration on MIR (Assert terminators + frozen panicking APIs) with re-derived local discharge rules and a reviewed table; variant-sensitive cursor analysis of parser and lexer (termination, no underflow, bounded recursion); exit-status table extraction",
+    "C11": "alias table extraction from match arms against the documented alias oracle, lower-casing dataflow on every keyword comparison, finite interpretation of the lexer's context-flag assignments and character classes on all flag valuations",
+    "C12": "translator table extraction and regex-metacharacter coverage check, anchoring templates, result-shape agreement of positive/negative operator arms, cache-key analysis",
+    "C13": "order-type evaluation of extracted date predicates over all weak orderings of (t, a, b); interval-construction table extraction; unit-chain agreement; finite interpretation of the date look-ahead ranges",
+    "C14": "HIR ladder/table extraction compared with documented unit tables, ladder-order rule, fraction-scaling dataflow, finite interpretation of the unit-rewriting statements on every humansize unit x short flag",
+    "C15": "grammar-layer extraction (operator sets per precedence level, left association), calc table, field-dependence of the cache key (MIR field reads), finite interpretation of the bracket decision over (side, inner op, outer op), write-through rule",
+    "C16": "arm-by-arm primitive extraction of get_value against a documented oracle (character- vs byte-based primitives), constructor/coercion table extraction for Variant, panic-site analysis restricted to function.rs",
+    "C17": "failure-branch rules on visit_dir (count, report, continue), totality of content readers (panic sites + fallbacks), stdout-write discipline (every write handles BrokenPipe), memo-reset completeness, exit-status table",
+    "C18": "guard-chain whitelist on the link-following descent, canonical-key rule for the visited set (dataflow from canonicalize to insert), must-precede rule (visited check before listing), saturating-depth rule",
+    "C19": "archive member loop rules (range, identity, guards, exits), FileInfo field table, availability table vs column arms, exit-class whitelist of the entry loop, mode predicates on stored unix modes",
+    "C20": "option-resolution table extraction (root option > config > default), loader/filter pairing per ignore kind, regex-hygiene rules on the translators (escaping of the directory prefix, anchors), canonical-path dataflow to the git query",
 }
 
 props = [json.loads(l)["id"] for l in open(os.path.join(VERIF, "properties.jsonl"))]
